@@ -291,10 +291,32 @@ def run(ck, F):
 
     def cls_of(t):
         return (t or '').replace('const ', '').rstrip('&* ').strip()
+    # the functions that print the location of a node handed to them: Location_printer::print(printer, node), and any helper that
+    # passes one of its own parameters on to such a function (a shared prologue of the statement and declaration printers)
+    loc_fns = {}
+    for fid, f in F.fn.items():
+        if (f.get('q') or '').endswith('Location_printer::print') and len(f.get('params', [])) == 2:
+            loc_fns[fid] = 1
+    if not loc_fns:
+        raise AnalysisBroken('anchor vanished: Location_printer::print(printer, node)')
+    grew = True
+    while grew:
+        grew = False
+        for fid, f in pf.items():
+            if fid in loc_fns:
+                continue
+            for n in walk(f.get('body')):
+                cid = (n.get('callee') or {}).get('id') if n.get('k') == 'call' else None
+                if cid in loc_fns and len(n.get('args') or []) > loc_fns[cid]:
+                    a = stripc(n['args'][loc_fns[cid]])
+                    if a.get('k') == 'ref' and a.get('kind') == 'parm' and a.get('idx') is not None:
+                        loc_fns[fid] = a['idx']
+                        grew = True
+                        break
     sites = []
     for fid, f in pf.items():
-        prints = [(n.get('ln', 0), bare((n.get('args') or [None, None])[1])) for n in walk(f.get('body'))
-                  if n.get('k') == 'call' and (n.get('callee') or {}).get('q', '').endswith('Location_printer::print') and len(n.get('args') or []) == 2]
+        prints = [(n.get('ln', 0), bare(n['args'][loc_fns[n['callee']['id']]])) for n in walk(f.get('body'))
+                  if n.get('k') == 'call' and (n.get('callee') or {}).get('id') in loc_fns and len(n.get('args') or []) > loc_fns[n['callee']['id']]]
         for n in walk(f.get('body')):
             if n.get('k') == 'call' and (n.get('callee') or {}).get('name') == 'accept' and n.get('obj') is not None and n.get('args'):
                 sites.append((f, n, cls_of(stripc(n['obj']).get('t')), cls_of(stripc(n['args'][0]).get('t')), prints))
